@@ -1,7 +1,7 @@
 ----------------------------- MODULE AggrChunkMC -----------------------------
 (* Leg A for C39: every presence pattern x sub-chunk contents x requested type. *)
 EXTENDS AggrChunk, TLC, Json, IOUtils, SequencesExt
-CONSTANTS Bytes, MaxLen
+CONSTANTS Bytes, Lens      \* Lens: the data lengths to enumerate (chosen around powers of Base)
 
 (* -------- algorithm level: the Get loop, one iteration per step -------- *)
 (* State of the loop: b = remaining bytes, i = aggregate index, x = last   *)
@@ -16,17 +16,19 @@ Undecided == [kind |-> "undecided"]
 Iterate ==
     /\ res = Undecided
     /\ i <= t
-    /\ IF Len(b) < 1
+    /\ LET d == DecodeUvarint(b) IN
+       IF d.n < 1
          THEN res' = [kind |-> "error"] /\ UNCHANGED <<b, i, x>>
-       ELSE LET l == Head(b) IN
+       ELSE LET l == d.val
+                rest == SubSeqFrom(b, d.n + 1) IN
             IF l = 0
               THEN IF i = t
                      THEN res' = [kind |-> "notexist"] /\ UNCHANGED <<b, i, x>>
-                     ELSE b' = Tail(b) /\ i' = i + 1 /\ UNCHANGED <<x, res>>
-            ELSE IF Len(b) - 1 < l + 1
+                     ELSE b' = rest /\ i' = i + 1 /\ UNCHANGED <<x, res>>
+            ELSE IF Len(rest) < l + 1
               THEN res' = [kind |-> "error"] /\ UNCHANGED <<b, i, x>>
-            ELSE /\ x' = SubSeq(b, 2, l + 2)
-                 /\ b' = SubSeqFrom(b, l + 3)
+            ELSE /\ x' = SubSeq(rest, 1, l + 1)
+                 /\ b' = SubSeqFrom(rest, l + 2)
                  /\ i' = i + 1
                  /\ UNCHANGED res
     /\ UNCHANGED <<chks, t>>
@@ -44,7 +46,7 @@ C39_GetMatchesExpected == res # Undecided => res = Expected(chks, t)
 C39_Terminates == <>(res # Undecided)
 
 (* -------- model -------- *)
-DataSeqs == UNION { [1..n -> Bytes] : n \in 1..MaxLen }
+DataSeqs == UNION { [1..n -> Bytes] : n \in Lens }
 ChunkVals == {Null} \cup { [enc |-> 1, data |-> d] : d \in DataSeqs }
 
 Init ==
@@ -60,7 +62,8 @@ Spec == Init /\ [][Next]_vars /\ WF_vars(Next)
 (* Leg B: the structural cases (presence pattern, lengths, requested type) TLC hands to the   *)
 (* harness, which fills them with real XOR chunks.  Written once, at startup.                 *)
 CasesFile == IF "VERIF_CASES" \in DOMAIN IOEnv THEN IOEnv.VERIF_CASES ELSE "cases.ndjson"
-Shapes == [Types -> 0..MaxLen]        \* 0 = absent, n = present with n "units" of content
-CaseSeq == SetToSeq({ [lens |-> [k \in 1..5 |-> s[k - 1]], t |-> tt] : s \in Shapes, tt \in Types })
+Shapes == [Types -> {0} \cup Lens]    \* 0 = absent, n = present with abstract length n (the harness maps
+                                      \* n to concrete byte lengths on the same side of the powers of 128)
+CaseSeq == SetToSeq({ [lens |-> [k \in 1..5 |-> s[k - 1]], t |-> tt, base |-> Base] : s \in Shapes, tt \in Types })
 ASSUME ndJsonSerialize(CasesFile, CaseSeq)
 =============================================================================
